@@ -53,6 +53,10 @@ def gen_class(rng, name, base=None, base_fields=(), slotted_args=None):
         flags.append("unsafe_hash=True")
     fields = []
     have_default = any(d is not None for _, d in base_fields)
+    if base_fields and rng.random() < 0.3:
+        # re-declare an inherited field (with a new default) in the child
+        fname, _ = rng.choice(list(base_fields))
+        fields.append((fname, rng.choice(["5", "'redeclared'", "None"])))
     for i in range(nf):
         fname = f"{name.lower()}_f{i}"
         d = None
@@ -199,7 +203,8 @@ def run_case(sh, i, plan):
             # define an unslotted twin of the base in the slotted module
             slot_src += base_kind["plain_src"].replace(f"class {base}", f"class {base}_plain", 1) + "\n"
         slot_src += src_s + "\n"
-        meta.append(dict(name=name, fields=fields, allfields=list(base_fields) + fields, flags=flags, d=d, w=w, base=base, base_unslotted=base_unslotted,
+        merged = [(f, dict(fields).get(f, d)) for f, d in base_fields] + [(f, d) for f, d in fields if f not in dict(base_fields)]
+        meta.append(dict(name=name, fields=fields, allfields=merged, flags=flags, d=d, w=w, base=base, base_unslotted=base_unslotted,
                          plain_src=src_p, base_meta=base_kind))
     if scenario == "failing-first":
         # an earlier decoration that fails (custom metaclass is rejected by design / bad input), must not poison later ones
